@@ -23,7 +23,7 @@ BUDGET = {
     "quick": {"cases": 9600, "seconds": 90, "shards": 8},
     "thorough": {"cases": 160000, "seconds": 900, "shards": 16},
 }
-REQUIRED_OBS = ["hook_tree_checked", "boundary_tiefree_checked", "boundary_sandwich_checked", "semi_cases", "mst_multiset_compared"]
+REQUIRED_OBS = ["exhaustive_small_graph_cases", "hook_tree_checked", "boundary_tiefree_checked", "boundary_sandwich_checked", "semi_cases", "mst_multiset_compared"]
 MIN_NONTRIVIAL = 100
 
 
@@ -133,3 +133,31 @@ def check(case):
 
 def shrink(case):
     yield from shrink_rows(case)
+
+
+def extra(tier, seed, shard=0, nshards=1):
+    """Bounded-exhaustive pass: every weight matrix over a small alphabet x every labelling on 3..5 nodes (all tie patterns),
+    fed as pre-computed distances with a reversed index array; each is judged by the same oracle as the random cases."""
+    out = []
+    agg = Result()
+    n_cases = 0
+    for n, D, Y in gen.exhaustive_small_graphs(tier, shard, nshards):
+        I = list(range(n))[::-1]
+        Dp = D[np.ix_(I, I)]            # matrix row I[i] holds sample i: the matrix is permuted consistently with the index array
+        DD = np.zeros((n, n))
+        for a in range(n):
+            for b in range(n):
+                DD[I[a], I[b]] = D[a, b]
+        case = {"model": "supervised", "metric": "log_squared_euclidean", "gclass": "EXH", "pattern": "exh",
+                "X": [[float(i)] for i in I], "Y": Y, "U": [], "Q": [[float(q)] for q in range(n)],
+                "pre": {"D": DD.tolist(), "I": I, "IQ": list(range(n)), "kind": "EXH"}, "prefit": None}
+        r = check(case)
+        n_cases += 1
+        if r.violations:
+            out.append((case, r))
+        else:
+            agg.obs.update(r.obs)
+    agg.see("exhaustive_small_graph_cases", n_cases)
+    agg.cell("exhaustive-small-graphs", tier)
+    out.append(({"exhaustive_small_graphs": {"tier": tier, "cases_this_shard": n_cases}}, agg))
+    return out
